@@ -46,12 +46,15 @@ def classify(sig, fam):
         if re.search(r"A16\[\w+\] (<<|>>)= \d", sig):
             return "KF-C01-shift16-elem"
         return "KF-C01-deref-y" if ("(*P)" in sig or "P[" in sig) else None
-    if fam == "F4":
-        return "DROP"       # repaired (FX-C01-switch-later-case0); the baseline file predates the repair
+
     if fam == "F8":
         return "KF-C01-opt-shift-mem" if re.search(r"u16 (<<|>>)= 1", sig) else None
     if fam == "F7b":
         return "KF-C01-stale-flags-shift16"
+    if fam == "FT":
+        if sig.startswith("u16 ="):
+            return "KF-C01-hi16"
+        return "KF-C01-cmp-signed-mixed" if re.search(r"s8\) < 5\)", sig) else None
     if fam == "F5d":
         return "KF-C01-cmp-signed-mixed" if "sgn(" in sig else None
     return None
